@@ -6,6 +6,7 @@ import "verif/vf"
 // All maps a property id to its check.
 var All = map[string]func(*vf.Ctx){
 	"C08": C08,
+	"C19": C19,
 }
 
 // Sub holds sub-process entry points.
@@ -24,4 +25,4 @@ func SelfTest() int {
 }
 
 // SpecModules lists the root modules that setup parses.
-var SpecModules = []string{"Codec"}
+var SpecModules = []string{"Codec", "Signal", "Chan"}
